@@ -156,7 +156,7 @@ def run_fetch(chk, testbin, thorough):
     out = os.path.join(rd, "fetch.ndjson")
     st = os.path.join(rd, "fetch_stats.json")
     root = shm(chk, "fetch")
-    reps, preps, directed, par = (3000, 150, 15, 6) if thorough else (150, 6, 2, 4)
+    reps, preps, directed, par = (2000, 100, 10, 6) if thorough else (150, 6, 2, 4)
     env = C.base_env({"VERIF_FETCH_OUT": out, "VERIF_FETCH_STATS": st, "VERIF_ROOT": root, "VERIF_SEED": str(C.seed()),
                       "VERIF_REPS": str(reps), "VERIF_PROC_REPS": str(preps), "VERIF_DIRECTED": str(directed),
                       "VERIF_PAR": str(par), "TMPDIR": root})
@@ -403,7 +403,8 @@ def check(chk):
         "absolute escapes are looked for at /c20a and /c20b",
         "verdict 'either' (not judged beyond Confined): links, absolute names, names with '.', empty or inner '..' segments, "
         "duplicates and file-vs-directory clashes, a directory entry naming dest itself or an ancestor",
-        "zip cannot express hard links nor file names ending in '/'; those archives are skipped for zip and counted",
+        "zip cannot express hard links nor file names ending in '/', Go's tar writer refuses regular files whose name ends in '/'; "
+        "those archives are skipped for that format and counted (unrepresentable_per_format)",
         "tar.xz runs through external GNU tar + xz (two processes per archive): a seeded sample of the archives only",
         "part 2 judges what callers can observe (nil return => complete dst; visible dst => complete); loss of mutual exclusion by "
         "itself is reported from the model and the staged run but is not a verdict",
